@@ -28,7 +28,7 @@ fn main() {
             let threads: usize = arg(&args, "--threads").and_then(|s| s.parse().ok()).unwrap_or(16);
             let out = arg(&args, "--out");
             let replay_dir = arg(&args, "--replay-dir").unwrap_or_else(|| "/verif/replays".into());
-            let hang: u64 = arg(&args, "--hang-secs").and_then(|s| s.parse().ok()).unwrap_or(30);
+            let hang: u64 = arg(&args, "--hang-secs").and_then(|s| s.parse().ok()).unwrap_or(120);
             let Some((engine, rule, mut cases, max_len, id)) = engine_for(&prop, tier) else {
                 eprintln!("unknown property {}", prop);
                 std::process::exit(2);
